@@ -195,7 +195,7 @@ structure WFaW (a : ElifA) : Prop where
 theorem elifAOf_w {c : LCtx} {r : List Nat} {d : List String} (neg : Bool) (hdrs : List Hdr) (hh : HdrsOK hdrs)
     {body : M (List LItem)} (hm : WM c r d body) {s : St} {a : ElifA} {s' : St} (hs : StOK c s)
     (h : elifAOf neg hdrs body s = .ok (a, s')) :
-    W c (if neg then r else []) (if neg then d else []) s (earlyItems [a]) s' ∧ WFaW a := by
+    W c (if neg then r else []) (if neg then d else []) s (earlyItems [a]) s' ∧ WFaW a ∧ a.neg = neg := by
   simp only [elifAOf, bind_ok, pure_ok] at h
   obtain ⟨bps0, s1, h1, bps, s2, h2, e, s3, h3, h4⟩ := h
   simp only [Prod.mk.injEq] at h4
@@ -211,18 +211,18 @@ theorem elifAOf_w {c : LCtx} {r : List Nat} {d : List String} (neg : Bool) (hdrs
     simp only [Prod.mk.injEq] at h6
     obtain ⟨rfl, rfl⟩ := h6
     obtain ⟨wb, jb⟩ := blockOf_w hm ok2 (e12.ok hs) h5
-    refine ⟨by simpa [earlyItems] using wb.sameLft e12, ok2, fun _ => ⟨b, rfl, jb, wb.ctx, wb.root⟩, fun hc => (by cases hc)⟩
+    refine ⟨by simpa [earlyItems] using wb.sameLft e12, ⟨ok2, fun _ => ⟨b, rfl, jb, wb.ctx, wb.root⟩, fun hc => (by cases hc)⟩, rfl⟩
   | false =>
     simp only [Bool.false_eq_true, ↓reduceIte, pure_ok, Prod.mk.injEq] at h3
     obtain ⟨rfl, rfl⟩ := h3
-    refine ⟨by simpa [earlyItems] using (W.nil (e12.ok hs)).sameLft e12, ok2, fun hc => (by cases hc), fun _ => rfl⟩
+    refine ⟨by simpa [earlyItems] using (W.nil (e12.ok hs)).sameLft e12, ⟨ok2, fun hc => (by cases hc), fun _ => rfl⟩, rfl⟩
 
 /-- steps 2 and 5 of `IfBlock.collect` over the elseif handlers -/
-def EAS (k : Nat) (c : LCtx) (rA : List Nat) (dA : List String) (elifsA : M (List ElifA)) : Prop :=
-  ∀ s as s', StOK c s → elifsA s = .ok (as, s') → as.length = k ∧ W c rA dA s (earlyItems as) s' ∧ ∀ a ∈ as, WFaW a
+def EAS (negs : List Bool) (c : LCtx) (rA : List Nat) (dA : List String) (elifsA : M (List ElifA)) : Prop :=
+  ∀ s as s', StOK c s → elifsA s = .ok (as, s') → as.map (·.neg) = negs ∧ W c rA dA s (earlyItems as) s' ∧ ∀ a ∈ as, WFaW a
 
-def EBS (k : Nat) (c : LCtx) (rB : List Nat) (dB : List String) (elifsB : List ElifA → M (List Blk)) : Prop :=
-  ∀ as, as.length = k → (∀ a ∈ as, WFaW a) → ∀ s late s', StOK c s → elifsB as s = .ok (late, s') →
+def EBS (negs : List Bool) (c : LCtx) (rB : List Nat) (dB : List String) (elifsB : List ElifA → M (List Blk)) : Prop :=
+  ∀ as, as.map (·.neg) = negs → (∀ a ∈ as, WFaW a) → ∀ s late s', StOK c s → elifsB as s = .ok (late, s') →
     W c rB dB s (elifsBack as late) s' ∧
     (∀ n, (intIds (elifsFront as late)).count n = (intIds (earlyItems as)).count n) ∧
     (∀ n, (usrIds (elifsFront as late)).count n = (usrIds (earlyItems as)).count n) ∧
